@@ -117,14 +117,14 @@ struct Behaviour {
     log: Vec<Call>,
 }
 
-fn behaviour(text: &str, sigs: &[Sig], script: &[Step]) -> Behaviour {
+fn behaviour_n(text: &str, sigs: &[Sig], script: &[Step], max_rows: usize) -> Behaviour {
     let tc = match load(text, sigs, DEFAULT_BUDGET) {
         Ok(tc) => tc,
         Err(ObsInit::ParseErr(_)) => return Behaviour { verdict: "rejected by from_str".into(), stat: vec![], dynamic: vec![], log: vec![] },
         Err(ObsInit::BindErr(_)) => return Behaviour { verdict: "rejected by with_signals".into(), stat: vec![], dynamic: vec![], log: vec![] },
         Err(o) => return Behaviour { verdict: format!("{o:?}"), stat: vec![], dynamic: vec![], log: vec![] },
     };
-    let mut opts = RunOpts::new(40);
+    let mut opts = RunOpts::new(max_rows);
     opts.repeat_last = true;
     let obs = run_loaded(&tc, sigs, true, script, &opts);
     let dynamic = obs
@@ -135,7 +135,7 @@ fn behaviour(text: &str, sigs: &[Sig], script: &[Step]) -> Behaviour {
             other => (0, other.brief()),
         })
         .collect();
-    let stat = match run_static(&tc, 40, 1, DEFAULT_BUDGET) {
+    let stat = match run_static(&tc, max_rows, 1, DEFAULT_BUDGET) {
         StaticObs::Rows(rows, _) => rows
             .iter()
             .map(|r| match r {
@@ -147,6 +147,90 @@ fn behaviour(text: &str, sigs: &[Sig], script: &[Step]) -> Behaviour {
         other => vec![(0, format!("{other:?}"))],
     };
     Behaviour { verdict: format!("accepted ({})", obs.init.brief()), stat, dynamic, log: obs.log }
+}
+
+/// Compare the behaviour of every rewriting in `layouts` (index 0 = no deviation, skipped) with the canonical layout
+#[allow(clippy::too_many_arguments)]
+fn examine(st: &mut Stats, u: u64, k: usize, variant: u64, ls: &[Line], layouts: &[Vec<Dev>], sigs: &[Sig], script: &[Step]) {
+    let max_rows = if ls.len() > 20 { 400 } else { 40 };
+    let base = apply(ls, &[]);
+    let b0 = behaviour_n(&base.text, sigs, script, max_rows);
+    let accepted = b0.verdict.starts_with("accepted");
+    if variant == 0 && !accepted {
+        st.violation("valid base program not accepted", u, format!("text:\n{}\nverdict: {}", base.text, b0.verdict), || json!({"kind": "parse", "text": base.text, "expected": ["accepted"], "observed": [crate::props::c09::describe(&base.text)]}));
+        return;
+    }
+    st.witness(if accepted { "accepted_program" } else { "rejected_program" });
+    for (li, lay) in layouts.iter().enumerate().skip(1) {
+        let laid = apply(ls, lay);
+        st.evals += 1;
+        st.nontrivial += 1;
+        let b = behaviour_n(&laid.text, sigs, script, max_rows);
+        for d in lay {
+            st.witness(match d {
+                Dev::Gap(_, _, "") => "gap_removed",
+                Dev::Gap(..) | Dev::Indent(..) | Dev::TrailingSpace(..) => "blank_space_changed",
+                Dev::Respell(..) => "literal_in_another_radix",
+                Dev::TrailingComment(..) => "comment_appended",
+                Dev::Insert(..) => "line_inserted",
+                Dev::CrlfAll | Dev::CrlfLine(_) => "crlf",
+                Dev::NoFinalNewline => "no_final_newline",
+                _ => "other",
+            });
+        }
+        let mut mism: Option<String> = None;
+        if b.verdict != b0.verdict {
+            mism = Some(format!("verdict: canonical layout is {}, rewritten text is {}", b0.verdict, b.verdict));
+        } else if accepted {
+            for (what, x0, x) in [("dynamic", &b0.dynamic, &b.dynamic), ("static", &b0.stat, &b.stat)] {
+                if x0.len() != x.len() {
+                    mism = Some(format!("rows: {what} iteration yields {} items, canonical layout {}", x.len(), x0.len()));
+                    break;
+                }
+                for (kk, ((l0, r0), (l1, r1))) in x0.iter().zip(x.iter()).enumerate() {
+                    if r0 != r1 {
+                        mism = Some(format!("rows: {what} item {kk} differs: {r1} vs canonical {r0}"));
+                        break;
+                    }
+                    if *l0 > 0 {
+                        let want = base.row_lines.iter().position(|x| x == l0).map(|_| l0 + laid.shift[l0 - 1]);
+                        if Some(*l1) != want {
+                            mism = Some(format!("line: {what} item {kk} reports line {l1}; canonical line {l0} with {} lines inserted above", laid.shift[l0 - 1]));
+                            break;
+                        }
+                    }
+                }
+                if mism.is_some() {
+                    break;
+                }
+            }
+            if mism.is_none() && b.log != b0.log {
+                mism = Some("rows: the driver was handed different input vectors".into());
+            }
+        }
+        if lay.len() == 2 && u % 40 == 3 && li % 997 == 0 {
+            st.sample(|| json!({"canonical": base.text, "rewritten": laid.text, "deviations": format!("{lay:?}"), "verdict": b.verdict}));
+        }
+        if let Some(m) = mism {
+            let class = m.split(':').next().unwrap_or("?").to_string();
+            let kinds: Vec<&str> = lay
+                .iter()
+                .map(|d| match d {
+                    Dev::Gap(_, _, "") => "gap removed",
+                    Dev::Gap(..) | Dev::Indent(..) | Dev::TrailingSpace(..) => "blank space",
+                    Dev::Respell(..) => "radix",
+                    Dev::TrailingComment(..) => "comment",
+                    Dev::Insert(..) => "inserted line",
+                    Dev::CrlfAll | Dev::CrlfLine(_) => "crlf",
+                    Dev::NoFinalNewline => "final newline",
+                    _ => "other",
+                })
+                .collect();
+            st.violation(&format!("{class} changes under [{}]", kinds.join(" + ")), (lay.len() as u64) << 56 | (k as u64) << 50 | u << 20 | li as u64 & 0xfffff, format!("canonical text:\n{}\nrewritten text ({lay:?}):\n{}\n{m}", base.text, laid.text), || {
+                json!({"kind": "layout", "canonical": base.text, "text": laid.text, "signals": sigs_json(sigs), "expected": [format!("same behaviour as the canonical layout: {}", b0.verdict)], "observed": [format!("{} / differs from canonical ({})", b.verdict, b0.verdict)]})
+            });
+        }
+    }
 }
 
 pub fn run(tier: Tier, seed: u64) -> i32 {
@@ -191,86 +275,44 @@ pub fn run(tier: Tier, seed: u64) -> i32 {
                 }
                 _ => {}
             }
-            let base = apply(&ls, &[]);
-            let b0 = behaviour(&base.text, &sigs, &script);
-            let accepted = b0.verdict.starts_with("accepted");
-            if variant == 0 && !accepted {
-                st.violation("valid base program not accepted", u, format!("text:\n{}\nverdict: {}", base.text, b0.verdict), || json!({"kind": "parse", "text": base.text, "expected": ["accepted"], "observed": [crate::props::c09::describe(&base.text)]}));
-                return;
-            }
-            st.witness(if accepted { "accepted_program" } else { "rejected_program" });
             let devs = singles(&ls);
             let layouts = up_to(&devs, if k <= 2 { 2 } else { 1 });
-            for (li, lay) in layouts.iter().enumerate().skip(1) {
-                let laid = apply(&ls, lay);
-                st.evals += 1;
-                st.nontrivial += 1;
-                let b = behaviour(&laid.text, &sigs, &script);
-                for d in lay {
-                    st.witness(match d {
-                        Dev::Gap(_, _, "") => "gap_removed",
-                        Dev::Gap(..) | Dev::Indent(..) | Dev::TrailingSpace(..) => "blank_space_changed",
-                        Dev::Respell(..) => "literal_in_another_radix",
-                        Dev::TrailingComment(..) => "comment_appended",
-                        Dev::Insert(..) => "line_inserted",
-                        Dev::CrlfAll | Dev::CrlfLine(_) => "crlf",
-                        Dev::NoFinalNewline => "no_final_newline",
-                        _ => "other",
-                    });
+            examine(st, u, k, variant, &ls, &layouts, &sigs, &script);
+        });
+        total.merge(st);
+    }
+    // long programs (more lines than any line is long): deviations applied to one line, to every
+    // line at once, and CRLF throughout
+    {
+        let l = |n: i64| Entry::Lit(n, Radix::Dec);
+        let sizes: Vec<usize> = tier.pick(vec![9, 30], vec![9, 18, 30, 45, 90]);
+        let st = par_range("long programs (9..90 short rows, a loop in the middle) x {one deviation on one line, the same deviation on every line, CRLF throughout}", sizes.len() as u64, &deadline, |u, st| {
+            let n = sizes[u as usize];
+            let short = |j: usize| Stmt::Row(vec![l((j % 10) as i64), l(0), l(1)]);
+            let mut body: Vec<Stmt> = (0..n / 3).map(short).collect();
+            body.push(Stmt::Loop("i".into(), lit(2), (0..n / 3).map(short).collect()));
+            body.extend((0..n / 3).map(short));
+            let prog = Program { header: vec!["A".into(), "B".into(), "Q".into()], body };
+            let ls = lines(&prog);
+            let mut layouts: Vec<Vec<Dev>> = vec![vec![]];
+            layouts.push(vec![Dev::CrlfAll]);
+            layouts.push(vec![Dev::CrlfAll, Dev::NoFinalNewline]);
+            for li in 0..ls.len() {
+                for d in [Dev::CrlfLine(li), Dev::Insert(li, ""), Dev::Insert(li, "# c"), Dev::TrailingSpace(li, " \r"), Dev::Indent(li, " \t")] {
+                    layouts.push(vec![d]);
                 }
-                let mut mism: Option<String> = None;
-                if b.verdict != b0.verdict {
-                    mism = Some(format!("verdict: canonical layout is {}, rewritten text is {}", b0.verdict, b.verdict));
-                } else if accepted {
-                    for (what, x0, x) in [("dynamic", &b0.dynamic, &b.dynamic), ("static", &b0.stat, &b.stat)] {
-                        if x0.len() != x.len() {
-                            mism = Some(format!("rows: {what} iteration yields {} items, canonical layout {}", x.len(), x0.len()));
-                            break;
-                        }
-                        for (kk, ((l0, r0), (l1, r1))) in x0.iter().zip(x.iter()).enumerate() {
-                            if r0 != r1 {
-                                mism = Some(format!("rows: {what} item {kk} differs: {r1} vs canonical {r0}"));
-                                break;
-                            }
-                            if *l0 > 0 {
-                                let want = base.row_lines.iter().position(|x| x == l0).map(|_| l0 + laid.shift[l0 - 1]);
-                                if Some(*l1) != want {
-                                    mism = Some(format!("line: {what} item {kk} reports line {l1}; canonical line {l0} with {} lines inserted above", laid.shift[l0 - 1]));
-                                    break;
-                                }
-                            }
-                        }
-                        if mism.is_some() {
-                            break;
-                        }
-                    }
-                    if mism.is_none() && b.log != b0.log {
-                        mism = Some("rows: the driver was handed different input vectors".into());
-                    }
-                }
-                if lay.len() == 2 && u % 40 == 3 && li % 997 == 0 {
-                    st.sample(|| json!({"canonical": base.text, "rewritten": laid.text, "deviations": format!("{lay:?}"), "verdict": b.verdict}));
-                }
-                if let Some(m) = mism {
-                    let class = m.split(':').next().unwrap_or("?").to_string();
-                    let kinds: Vec<&str> = lay
-                        .iter()
-                        .map(|d| match d {
-                            Dev::Gap(_, _, "") => "gap removed",
-                            Dev::Gap(..) | Dev::Indent(..) | Dev::TrailingSpace(..) => "blank space",
-                            Dev::Respell(..) => "radix",
-                            Dev::TrailingComment(..) => "comment",
-                            Dev::Insert(..) => "inserted line",
-                            Dev::CrlfAll | Dev::CrlfLine(_) => "crlf",
-                            Dev::NoFinalNewline => "final newline",
-                            _ => "other",
-                        })
-                        .collect();
-                    st.violation(&format!("{class} changes under [{}]", kinds.join(" + ")), (lay.len() as u64) << 56 | (k as u64) << 50 | u << 20 | li as u64 & 0xfffff, format!("canonical text:\n{}\nrewritten text ({lay:?}):\n{}\n{m}", base.text, laid.text), || {
-                        json!({"kind": "layout", "canonical": base.text, "text": laid.text, "signals": sigs_json(&sigs), "expected": [format!("same behaviour as the canonical layout: {}", b0.verdict)], "observed": [format!("{} / differs from canonical ({})", b.verdict, b0.verdict)]})
-                    });
+                if li > 0 {
+                    layouts.push(vec![Dev::TrailingComment(li, " # c")]);
                 }
             }
+            layouts.push((0..ls.len()).map(|li| Dev::Insert(li, "")).collect());
+            layouts.push((0..ls.len()).map(|li| Dev::Insert(li, "#let i = 5;")).collect());
+            layouts.push((0..ls.len()).map(|li| Dev::TrailingSpace(li, " \r")).collect());
+            layouts.push((0..ls.len()).map(|li| Dev::Indent(li, "\t ")).collect());
+            layouts.push((1..ls.len()).map(|li| Dev::TrailingComment(li, "# c")).collect());
+            layouts.push((0..ls.len()).map(|li| Dev::CrlfLine(li)).filter(|d| matches!(d, Dev::CrlfLine(x) if x % 2 == 0)).collect());
+            st.witness("long_program");
+            examine(st, (1 << 40) + u, 9, 0, &ls, &layouts, &sigs, &script);
         });
         total.merge(st);
     }
@@ -278,9 +320,9 @@ pub fn run(tier: Tier, seed: u64) -> i32 {
         id: "C20",
         tier,
         seed,
-        rule: "every program of the space (and two malformed variants of each) x every set of at most 2 layout deviations: each inter-token gap -> {two spaces, tab, ' \\r', '\\r ', tab-space-tab, nothing (only where the reference lexer still reads the same two tokens)}, indentation, trailing blank space, '#' comment appended to a line after the header, blank/comment line inserted anywhere after the header, CRLF on one line or all, no final newline, each literal -> every other radix spelling; metamorphic comparison with the canonical layout; every rewriting is non-trivial".into(),
+        rule: "every program of the space (and two malformed variants of each) x every set of at most 2 layout deviations: each inter-token gap -> {two spaces, tab, ' \\r', '\\r ', tab-space-tab, nothing (only where the reference lexer still reads the same two tokens)}, indentation, trailing blank space, '#' comment appended to a line after the header, blank/comment line inserted anywhere after the header, CRLF on one line or all, no final newline, each literal -> every other radix spelling; plus long programs of 9..90 short rows under one deviation on one line / on every line / CRLF throughout; metamorphic comparison with the canonical layout; every rewriting is non-trivial".into(),
         assumptions: vec!["no reference semantics: only pairwise equality of verdict, rows (static and dynamic) and the vectors the driver was handed; which token pairs may be joined is decided by the reference lexer (refgrammar::lex)".into()],
-        required_witnesses: vec!["accepted_program", "rejected_program", "gap_removed", "blank_space_changed", "literal_in_another_radix", "comment_appended", "line_inserted", "crlf", "no_final_newline"],
+        required_witnesses: vec!["accepted_program", "rejected_program", "gap_removed", "blank_space_changed", "literal_in_another_radix", "comment_appended", "line_inserted", "crlf", "no_final_newline", "long_program"],
         exhaustive_note: "all programs x all rewritings within the bounds".into(),
         e1: false,
     };
@@ -290,7 +332,9 @@ pub fn run(tier: Tier, seed: u64) -> i32 {
 pub fn replay_layout(j: &serde_json::Value) -> Vec<String> {
     let sigs: Vec<Sig> = j["signals"].as_array().map(|a| a.iter().filter_map(|s| s.as_str().and_then(Sig::parse)).collect()).unwrap_or_default();
     let script = vec![Step::Ans(vec![("Q".into(), V::Num(6)), ("i".into(), V::Num(3))])];
-    let b0 = behaviour(j["canonical"].as_str().unwrap_or(""), &sigs, &script);
-    let b = behaviour(j["text"].as_str().unwrap_or(""), &sigs, &script);
+    let canonical = j["canonical"].as_str().unwrap_or("");
+    let max_rows = if canonical.lines().count() > 20 { 400 } else { 40 };
+    let b0 = behaviour_n(canonical, &sigs, &script, max_rows);
+    let b = behaviour_n(j["text"].as_str().unwrap_or(""), &sigs, &script, max_rows);
     vec![if b == b0 { "same behaviour as the canonical layout".to_string() } else { format!("{} / differs from canonical ({})", b.verdict, b0.verdict) }]
 }
